@@ -189,3 +189,44 @@ func H_C17_Keys() {
 		nd.Assert(bytes.Equal(iv[:], []byte(i)), "iv/returns-the-bytes")
 	}
 }
+
+// H_C17_HostDecorated: IP literals with zones, ports, brackets and surrounding whitespace ("::1%x", "1.2.3.4:8", " ::1", "[::1]", ...): the accessor and the helper agree with the standard library's net.ParseIP on each of them (a zoned or decorated literal is not an IP literal).
+//
+//verif:props C17
+//verif:witness valid-host invalid-host
+func H_C17_HostDecorated() {
+	bases := []string{"::1", "1.2.3.4", "::", "fe80::1"}
+	base := bases[nd.IntRange(0, len(bases)-1)]
+	var host string
+	switch nd.IntRange(0, 5) {
+	case 0:
+		host = base
+	case 1:
+		host = base + "%" + nd.String(nd.IntRange(1, 2))
+	case 2:
+		host = base + ":" + nd.String(1)
+	case 3:
+		host = " " + base
+	case 4:
+		host = base + nd.String(1)
+	case 5:
+		host = "[" + base + "]"
+	}
+	a := addrFrom(map[string]string{"host": host})
+	ip := net.ParseIP(host)
+	_, herr := a.Host()
+	nd.Assert((herr == nil) == (ip != nil), "hostdecorated/succeeds-iff-ip-literal")
+	nd.Assert(a.HasValidHost() == (ip != nil), "hostdecorated/HasValidHost-agrees")
+	nd.Assert(!nd.Called("net.ResolveIPAddr:non-literal"), "hostdecorated/no-name-resolution")
+	if ip != nil {
+		nd.Cover("valid-host")
+		want := "6"
+		if ip.To4() != nil {
+			want = "4"
+		}
+		nd.Assert(a.IPVersion() == want, "hostdecorated/ipversion-matches-family")
+	} else {
+		nd.Cover("invalid-host")
+		nd.Assert(a.IPVersion() == "", "hostdecorated/no-version-for-invalid-host")
+	}
+}
